@@ -24,7 +24,7 @@ def run(tier, seed):
     base = {'prop': PROP, 'types': [('Skewness', None), ('Kurtosis', None)], 'P': 4, 'shapes': SHAPES,
             'max_offset_exp': 9, 'need_spread': True, 'min_n': 2}
     if tier == 'quick':
-        nseq, variants, mult = 2000, [('release', 1.0), ('dev', 0.25)], 1
+        nseq, variants, mult = 2000, [('release', 1.0), ('dev', 0.25), ('std', 0.15)], 1
     else:
         nseq, variants, mult = 100000, [('release', 1.0), ('dev', 0.15), ('std', 0.15)], 8
     total = Result()
